@@ -633,7 +633,7 @@ impl DataModel {
 
                                 Rule::string => {
                                     let pair = value_pair.into_inner().next().unwrap();
-                                    let value = pair.as_str().replace("\\\"", "\"");
+                                    let value = super::decode_string_literal(pair.as_str());
                                     match field.field_type {
                                         FieldType::String => {
                                             field.default_value =
